@@ -119,8 +119,10 @@ func (p *PortSet) Intersection(other *PortSet) {
 }
 
 // IsAll: return true if current PortSet object contains all ports
+// (named ports which are added to the full range of ports are redundant; so the result does not depend on
+// the order in which port sets are united)
 func (p *PortSet) IsAll() bool {
-	return p.Equal(MakePortSet(true))
+	return p.Ports.Equal(MakePortSet(true).Ports) && len(p.ExcludedNamedPorts) == 0
 }
 
 const comma = ","
